@@ -123,7 +123,7 @@ fn owning<const N: usize, const B: usize>(ctx: &mut Ctx, flags: u8, nevents: usi
             let consumed = ui != last_used && ((uid & 0xffff) as usize) < N && class != 2;
             // buffers the device still holds + completions the driver has not consumed yet
             let pending_after = expect.len() as u128 - if consumed { 1 } else { 0 };
-            ctx.tr.line(1950, &[N as u128, B as u128, dev.posted() as u128 + pending_after, class, has, len, tok, exp_tok, bytes_ok, if class == 1 || has == 1 { exp_len } else { 0 }, hres], &[1]);
+            ctx.tr.line(1950, &[N as u128, B as u128, dev.posted() as u128 + pending_after, class, has, len, tok, exp_tok, bytes_ok, if pending { exp_len } else { 0 }, hres, pending as u128], &[1]);
             if consumed { expect.remove(0); last_used = last_used.wrapping_add(1); done += 1; }
             match class {
                 0 if has == 1 => ctx.tr.note("owning_delivered"),
